@@ -16,7 +16,7 @@ RULE = ("fn 1: histories recorded from 1..64 goroutines (8 fixed sizes + random 
         "simultaneous unstamped Acquires (optionally after two forced GCs = empty sync.Pool), then random Acquire / pool.Release / Name.Release / "
         "immediate double release / release of a stale handle long after / Release(nil) / Gosched / runtime.GC per goroutine; ~3200 events per history "
         "(quick, ~216 histories) or ~900 (thorough, ~10000 histories); events stamped by one atomic clock (Acquire after return, Release before the call); "
-        "the same generator runs again in a -race build (quick ~60 histories, thorough ~860) whose exit status and DATA RACE reports are observables. "
+        "the same generator runs again in a -race build (quick 45 concurrent histories, thorough 864, plus the single-goroutine ones) whose exit status and DATA RACE reports are observables. "
         "fn 2: single-goroutine histories: 15 fixed scripts (recycle, double release then two acquires, stale release after re-acquire, release nil, GC) "
         "x 10 formats + random scripts of 5..300 operations, replayed strictly (a new id is pooled or exactly counter+1). "
         "fn 3: fmt.Sprintf(format, id) for the 10 formats x boundary and random uint64 ids. "
